@@ -242,9 +242,6 @@ class _Delegation:
         throw = getattr(self.iterator, "throw", None)
         if throw is None:
             # The exception is raised where the generator delegates
-            close = getattr(self.iterator, "close", None)
-            if close is not None:
-                close()
             raise _thrown_exception(typ, val, tb)
         if val is None and tb is None:
             return self._yielded(throw(typ))
